@@ -712,6 +712,82 @@ def h_real_e2e(i0: int, r1: int, k1: int) -> bool:
     return run(body_real_e2e, i0, r1, k1)
 
 
+# ------------------------------------------------------------------ byte identity on the real stack
+_VCARD = b"BEGIN:VCARD\r\nVERSION:3.0\r\nFN:Jane Doe\r\nN:Doe;Jane;;;\r\n%sEND:VCARD\r\n"
+RB_BODIES = [
+    # (name, content type, bytes) - whatever of these the server accepts, it serves back byte for byte
+    ("n.vcf", "text/vcard", _VCARD % b""),
+    ("n.vcf", "text/vcard", b"\xef\xbb\xbf" + _VCARD % b""),                        # UTF-8 byte order mark (Windows exports)
+    ("n.vcf", "text/vcard", (_VCARD % b"").replace(b"\r\n", b"\n")),                   # LF line ends
+    ("n.vcf", "text/vcard", (_VCARD % b"") + b"\r\n\r\n"),                            # trailing blank lines
+    ("n.vcf", "text/vcard", b"\r\n" + _VCARD % b""),                                  # leading blank line
+    ("n.vcf", "text/vcard", (_VCARD % b"").replace(b"BEGIN:VCARD", b"begin:vcard").replace(b"END:VCARD", b"end:vcard")),
+    ("n.vcf", "text/vcard", _VCARD % b"NOTE:aaa\r\n bbb\r\n"),                        # folded line
+    ("n.vcf", "text/vcard", _VCARD % "NOTE:caf\u00e9 \U0001f382\r\n".encode("utf-8")),
+    ("n.vcf", "text/vcard", _VCARD % b"EMAIL;TYPE=work:a@b\r\nEMAIL;type=HOME:c@d\r\n"),
+    ("n.vcf", "text/vcard", (_VCARD % b"").replace(b"VERSION:3.0", b"VERSION:4.0")),
+    ("n.txt", "text/plain", b"\xef\xbb\xbfhello\r\n"),
+    ("n.txt", "application/octet-stream", bytes(range(0, 40)) + b"\xff\xfe"),
+    ("n.txt", "text/plain", b""),
+    ("n.bin", "application/octet-stream", b"BEGIN:VCARD\r\nnot really\r\n"),
+]
+
+
+def body_real_bytes(bi):
+    """'Byte-identical for vCards and other files': bodies with a byte order mark, LF line ends, leading / trailing
+    blank lines, lower-case BEGIN/END, folded lines, non-ASCII text, binary content - PUT through the real stack
+    (real vobject, real stores on disk, real WSGI entry point); whatever is acknowledged is served back byte for byte
+    by GET, by a restarted server and as address-data of a multiget, and a refusal leaves the name 404."""
+    from xv.core import pick, untraced
+    bi = pick(bi, len(RB_BODIES))
+    with untraced():
+        from xv.core import real_stack
+        if not real_stack("wsgi"):
+            return (True, "real-unavailable")
+        import json
+        import os
+        import re
+        import subprocess
+        import xv
+        name, ct, body = RB_BODIES[bi]
+        col = "/user/contacts/ab" if name.endswith(".vcf") else _C
+        p_ = col + "/" + name
+        mg = ('<A:addressbook-multiget %s><D:prop><A:address-data/></D:prop><D:href>%s</D:href></A:addressbook-multiget>' % (_NS, p_))
+        script = [{"m": "PUT", "p": p_, "body": body.decode("latin-1"), "ct": ct}, {"m": "GET", "p": p_, "full": True},
+                  {"m": "REPORT", "p": col + "/", "xml": mg, "full": True}]
+        job = {"raw": True, "script_name": "", "cal": {"a.ics": "xa"}, "ab": {"c.vcf": "v1"}, "scripts": [script]}
+        p = subprocess.run(["/venv/bin/python", os.path.join(os.path.dirname(__file__), "..", "real_e2e.py")],
+                           input=json.dumps(job), capture_output=True, text=True, cwd=xv.REPO,
+                           env={"PATH": os.environ.get("PATH", ""), "PYTHONPATH": xv.REPO}, timeout=300)
+        if p.returncode != 0:
+            raise RuntimeError("real stack driver failed: " + p.stderr[-600:])
+        put, get, rep = json.loads(p.stdout)[0]
+        if put["st"] >= 500:
+            ctx.LAST_EXC = "PUT answered %d" % put["st"]
+            return (False, "crashed")
+        if not 200 <= put["st"] < 300:
+            return (get["st"] == 404, "refused")
+        if get["st"] != 200 or get["b"].encode("latin-1") != body:
+            ctx.LAST_EXC = "PUT %r acknowledged (%d), GET serves %r" % (body, put["st"], get["b"].encode("latin-1"))
+            return (False, "not-byte-identical")
+        if name.endswith(".vcf"):
+            import xml.etree.ElementTree as ET_
+            data = ET_.fromstring(rep["b"].encode("latin-1")).findtext(".//{urn:ietf:params:xml:ns:carddav}address-data")
+            # (XML carries text: line ends are normalised by the XML layer, so compare modulo CR)
+            if data is None or data.replace("\r", "") != body.decode("utf-8").replace("\r", ""):
+                ctx.LAST_EXC = "address-data %r for stored %r" % (data, body)
+                return (False, "address-data-differs")
+        return (True, "stored")
+
+
+def h_real_bytes(bi: int) -> bool:
+    """
+    pre: 0 <= bi < len(RB_BODIES)
+    post: _
+    """
+    return run(body_real_bytes, bi)
+
+
 # ------------------------------------------------------------------ full responses: model world vs real stack
 _NS = ('xmlns:D="DAV:" xmlns:C="urn:ietf:params:xml:ns:caldav" xmlns:A="urn:ietf:params:xml:ns:carddav" '
        'xmlns:I="http://apple.com/ns/ical/" xmlns:S="http://calendarserver.org/ns/"')
@@ -1160,6 +1236,15 @@ HARNESSES = [
                      "xandikos.store.git.BareGitStore._import_one", "xandikos.store.git.TreeGitStore._import_one",
                      "xandikos.store.git.GitStore._check_duplicate", "xandikos.store.git.GitStore._scan_uids",
                      "xandikos.web.open_store_from_path"]),
+    Harness("real_bytes", h_real_bytes, body_real_bytes, classes=["stored", "refused"], budget={"quick": 90, "thorough": 120},
+            per_path_timeout={"quick": 60, "thorough": 60},
+            describe="REAL stack: 14 vCard / plain / binary bodies (byte order mark, LF line ends, leading and trailing blank lines, "
+                     "lower-case BEGIN/END, folded lines, non-ASCII, VERSION 4.0, all byte values below 40) PUT through the real WSGI entry "
+                     "point onto real on-disk stores with the real vobject: what is acknowledged is served back byte for byte by GET "
+                     "and as address-data of a multiget, what is refused leaves the name 404; exhaustive over the corpus",
+            encodes=["xandikos.vcard.VCardFile.__init__", "xandikos.vcard.VCardFile.validate", "xandikos.store.File.normalized",
+                     "xandikos.store.git.TreeGitStore._import_one", "xandikos.webdav.PutMethod.handle", "xandikos.webdav._do_get",
+                     "xandikos.carddav.AddressDataProperty.get_value_ext"]),
     Harness("real_responses", h_real_responses, body_real_responses, classes=[("same:PUT", ""), ("same:PUT", "/dav")],
             parts={"quick": ["", "/dav"]}, bounds=_B, budget={"quick": 150, "thorough": 1500}, per_path_timeout={"quick": 120, "thorough": 120},
             twin_budget={"quick": 60, "thorough": 200},
